@@ -416,6 +416,7 @@ def run(ctx):
         from .. import jobtask as _jt17, jobrules as _jr17
         B17 = _jt17.Bodies(ctx, "R17.8")
         _jr17.hook_discipline(ctx, B17, rule="R17.8")
+        _jr17.check_api_table(ctx, "R17.8")     # set_spawn_hook is queued in order with the Start it precedes
     except Skip:
         pass
 
